@@ -265,16 +265,17 @@ def runRestLine (r : Report) (sec : Nat) (l : Line) (gated : Bool) (eng : Option
         if Spec.hasFlush script && atRet = Spec.completeF script && Spec.completes script false then
           r := r.addCover "flush-complete-streamed-result"
       | _, _, _, _ => r := r.mismatch sec l.idx "parsable-observation" impl
-    else if dur > 0 then
-      -- exempt request (websocket upgrade / event stream): the timeout must not touch it
+    else
+      -- exempt request (websocket upgrade / event stream) or TimeoutHandler(duration <= 0) = no timeout: nothing may cut it off
+      let what := if dur > 0 then "exempt request (websocket/event-stream)" else "TimeoutHandler(duration <= 0) is no timeout at all, but the request"
       let expected := (simRest script kind k hdr dur).sret
       let refused : Bool := match parseResults (obsOf l "results") with
         | some (rs, _) => rs.any (· == .errTimeout)
         | none => true
       if refused then
-        r := r.violation sec l.idx s!"exempt request (websocket/event-stream): a Write was refused with ErrHandlerTimeout: op=[{joinSp l.op}] impl=[{impl}]"
+        r := r.violation sec l.idx s!"{what} had a Write refused with ErrHandlerTimeout: op=[{joinSp l.op}] impl=[{impl}]"
       if expected = "blocked" && obsOf l "sret" ≠ "blocked" then
-        r := r.violation sec l.idx s!"exempt request (websocket/event-stream) was cut off by the timeout: op=[{joinSp l.op}] impl=[{impl}]"
+        r := r.violation sec l.idx s!"{what} was cut off by the timeout: op=[{joinSp l.op}] impl=[{impl}]"
     return r
 
 /-! ### two requests in flight together: `pair <same|own> <kindA> <ka> <kindB> <kb> <la> <actA>* / <actB>*`
@@ -685,6 +686,71 @@ def runCliOptLine (r : Report) (sec : Nat) (l : Line) : Report :=
     | none => r.mismatch sec l.idx "bad-op" (joinSp l.op)
   | _ => r.mismatch sec l.idx "bad-op" (joinSp l.op)
 
+/-! ### zrpc configuration glue, run on the real code (sections `wrapper=glue`)
+
+`gsrv <confMs> <method> <parentMs|none> <m:ms>*`  => `dl=… n=<interceptors installed>`   (zrpc/server.go setupUnaryInterceptors)
+`gcli <on|off> <confMs> <parentMs|none> <u:ms|c:ms|o>*` => `dl=… err=ok`  (zrpc.NewClient → internal.NewClient →
+buildDialOptions → buildUnaryInterceptors → TimeoutInterceptor, over an in-memory grpc connection) -/
+
+def parseGcliOpts (toks : List String) : Option (List Int × List (Option Int)) :=
+  toks.foldlM (fun (acc : List Int × List (Option Int)) o =>
+    if o = "o" then some (acc.1, acc.2 ++ [none]) else
+    match o.splitOn ":" with
+    | ["u", b] => b.toInt?.map (fun v => (acc.1 ++ [msI v], acc.2))
+    | ["c", b] => b.toInt?.map (fun v => (acc.1, acc.2 ++ [some (msI v)]))
+    | _ => none) ([], [])
+
+def runGlueLine (r : Report) (sec : Nat) (l : Line) : Report :=
+  match l.op with
+  | "gsrv" :: conf :: method :: p :: mts =>
+    match conf.toInt?, method.toNat?, parseParent p, parseMts mts with
+    | some c, some m, some parent, some tbl =>
+      let parent' := parent.map msI
+      let wired := decide (c > 0)
+      let t := srvTimeout (msI c) tbl m
+      let dl := srvWiredDeadline c tbl m parent' 0
+      let model := s!"dl={dlClassT parent' dl (t / 1000000)} n={if wired then 1 else 0}"
+      let impl := joinSp l.obs
+      let r := r.addCover (if !wired then "glue-srv-conf-timeout<=0-no-interceptor" else if t = msI c then "glue-srv-default-timeout" else "glue-srv-method-timeout")
+      let r := if wired && t ≤ 0 then r.addCover "glue-srv-method-timeout<=0-born-expired" else r
+      let r := match parent with
+        | some pm => if wired && msI pm < t then r.addCover "glue-srv-caller-earlier" else if wired then r.addCover "glue-srv-caller-later" else r
+        | none => r
+      let r := if model ≠ impl then r.mismatch sec l.idx model impl else r
+      let r := if wired && obsOf l "n" = "0" then
+        r.violation sec l.idx s!"RpcServerConf.Timeout > 0 but no timeout interceptor is installed: the work runs without the deadline: op=[{joinSp l.op}] impl=[{impl}]"
+      else r
+      if wired && dlViolates (obsOf l "dl") parent true (t / 1000000) then
+        r.violation sec l.idx s!"deadline seen by the work is later than min(caller's deadline, now+timeout) of its own method as configured (RpcServerConf.Timeout ms / MethodTimeouts through setupUnaryInterceptors): op=[{joinSp l.op}] impl=[{impl}]"
+      else r
+    | _, _, _, _ => r.mismatch sec l.idx "bad-op" (joinSp l.op)
+  | "gcli" :: mw :: conf :: p :: opts =>
+    match conf.toInt?, parseParent p, parseGcliOpts opts with
+    | some c, some parent, some (users, callOpts) =>
+      if mw ≠ "on" && mw ≠ "off" then r.mismatch sec l.idx "bad-op" (joinSp l.op) else
+      let on := mw = "on"
+      let parent' := parent.map msI
+      let t := cliTimeout (cliConfTimeout c users) callOpts
+      let dl := cliWiredDeadline on c users callOpts parent' 0
+      let model := s!"dl={dlClassT parent' dl (t / 1000000)} err=ok"
+      let impl := joinSp l.obs
+      let specT := Spec.clientTimeout c users callOpts
+      let wraps := on && decide (specT > 0)
+      let r := r.addCover (if !on then "glue-cli-middleware-off" else if !wraps then "glue-cli-pass-through"
+        else if callOpts.any (·.isSome) then "glue-cli-call-option" else if !users.isEmpty then "glue-cli-WithTimeout-option" else "glue-cli-conf-timeout")
+      let r := if users.length > 1 then r.addCover "glue-cli-several-WithTimeout-last-wins" else r
+      let r := if on && !users.isEmpty && c > 0 then r.addCover "glue-cli-WithTimeout-overrides-conf" else r
+      let r := if on && users.getLast?.any (· ≤ 0) && !callOpts.any (·.isSome) then r.addCover "glue-cli-WithTimeout<=0-disables" else r
+      let r := match parent with
+        | some pm => if wraps && msI pm < specT then r.addCover "glue-cli-caller-earlier" else if wraps then r.addCover "glue-cli-caller-later" else r
+        | none => r
+      let r := if model ≠ impl then r.mismatch sec l.idx model impl else r
+      if dlViolates (obsOf l "dl") parent wraps (specT / 1000000) then
+        r.violation sec l.idx s!"deadline that travels with the call is later than min(caller's deadline, now+effective timeout) as configured (first WithCallTimeout, else last zrpc.WithTimeout, else RpcClientConf.Timeout) through NewClient / buildDialOptions / buildUnaryInterceptors: op=[{joinSp l.op}] impl=[{impl}]"
+      else r
+    | _, _, _ => r.mismatch sec l.idx "bad-op" (joinSp l.op)
+  | _ => r.mismatch sec l.idx "bad-op" (joinSp l.op)
+
 /-! ### Hijack lines: `hij <sup|nosup> <kind> <before|after>` => `hijack=<ok|refused|unsupported>` -/
 
 def showHij : HijRes → String
@@ -773,6 +839,7 @@ def runEngLine (r : Report) (sec : Nat) (l : Line) (es : EngSec) : Report :=
         let wraps := restWraps dur h
         let others := (es.groups.zipIdx.filter (fun p => p.2 ≠ gi)).map (fun p => groupTimeout p.1)
         let r := r.addCover ("eng-group-" ++ groupClass opts)
+        let r := if gi % 3 = 2 then r.addCover ("eng-route-through-AddRoute-" ++ groupClass opts) else r
         let r := r.addCover ("eng-" ++ (model.splitOn "@").headD "" ++ (if wraps then "-wrapped" else "-unwrapped"))
         let r := if es.eng.mw ≠ .on then r.addCover "eng-middleware-off-or-custom-chain" else r
         let r := if wraps && own ≤ 0 && others.any (fun t => t > ms es.global) then r.addCover "eng-global-next-to-longer-route" else r
@@ -807,6 +874,7 @@ def runSection (r : Report) (s : Section) : Report :=
     | some "gt" | some "wct" => runCliOptLine r s.idx l
     | some "hij" => runHijLine r s.idx l
     | some "pair" => runPairLine r s.idx l
+    | some "gsrv" | some "gcli" => runGlueLine r s.idx l
     | some "edl" | some "emax" =>
       (match parseEng s.cfg with
         | some es => runEngLine r s.idx l es
